@@ -359,8 +359,16 @@ func (x *Exec) hook(ev *scriggo.VerifEvent) {
 	case scriggo.VerifWatcher:
 		x.mu.Lock()
 		vt := x.byVM[ev.VM]
-		if vt == nil {
-			// the VM's runFunc may already have ended (close(stop) raced with ctx.Done in the select)
+		if vt == nil || vt.status != stParked {
+			// The VM's goroutine is not parked at an instruction: it was blocked in
+			// a channel operation that selects on the context too, so the cancel
+			// wakes it directly and it stops by itself (setting the flag); its
+			// runFunc may even have ended already (close(stop) then races with
+			// ctx.Done in the watcher's select, which picks at random). The delay
+			// of this watcher cannot be observed: let it store the flag now. Only
+			// the watcher of a thread that is parked at an instruction (computing)
+			// becomes a schedulable thread. vt.status is fixed while the cancel
+			// event runs, so this decision is deterministic.
 			x.mu.Unlock()
 			return
 		}
@@ -727,6 +735,7 @@ func Explore(t *testing.T, sc *Scenario, maxExec int) Stats {
 	}
 	checkedAlt := false
 	leaky := 0
+	var parentTrace []string
 	var rec func(prefix []int) bool
 	rec = func(prefix []int) bool {
 		if maxExec > 0 && st.Executions >= maxExec {
@@ -748,7 +757,20 @@ func Explore(t *testing.T, sc *Scenario, maxExec int) Stats {
 			st.MaxPoints = len(x.Points)
 		}
 		if x.Diverged != "" {
-			st.Harness = append(st.Harness, sc.Name+": "+x.Diverged)
+			msg := sc.Name + ": " + x.Diverged
+			if parentTrace != nil {
+				k := len(x.Points)
+				lo := k - 6
+				if lo < 0 {
+					lo = 0
+				}
+				hi := k + 2
+				if hi > len(parentTrace) {
+					hi = len(parentTrace)
+				}
+				msg += fmt.Sprintf("\nrecorded run, points %d..%d: %v\nthis replay, points %d..%d: %v", lo, hi, parentTrace[lo:hi], lo, k, traceOf(x)[lo:])
+			}
+			st.Harness = append(st.Harness, msg)
 			return false
 		}
 		if !checkedAlt && len(prefix) > 0 {
@@ -839,6 +861,7 @@ func Explore(t *testing.T, sc *Scenario, maxExec int) Stats {
 					continue
 				}
 				np := append(append([]int{}, x.Choices[:i]...), alt)
+				parentTrace = traceOf(x)
 				if !rec(np) {
 					return false
 				}
